@@ -17,8 +17,9 @@ DEMOFILES=$(ls "$MDIR" | grep -E '_test\.go$|\.go$' | grep -v '^patch')
 rundemo() {
   # demos are test files for the project root unless DEMO.txt says otherwise
   for f in $DEMOFILES; do
-    dest=$(grep -oE '(driver|internal/[a-z]+|cmd/updog)/'"$f" "$MDIR/DEMO.txt" | head -1)
-    if [ -n "$dest" ]; then cp "$MDIR/$f" "$WT/$dest"; else cp "$MDIR/$f" "$WT/$f"; fi
+    dir=$(grep -oE '(internal/queryparser|internal/convert|cmd/updog|driver)/?' "$MDIR/DEMO.txt" | head -1)
+    dir=${dir%/}
+    if [ -n "$dir" ]; then cp "$MDIR/$f" "$WT/$dir/$f"; else cp "$MDIR/$f" "$WT/$f"; fi
   done
   cmd=$(grep -oE 'go test[^`]*' "$MDIR/DEMO.txt" | head -1)
   [ -z "$cmd" ] && cmd="go test -vet=off -count=1 ./..."
